@@ -73,6 +73,11 @@ theorem iro_roundtrip_reachable (ops : List IroOp) : importIro (exportIro (iroRu
 theorem iro_export_import_export (ops : List IroOp) :
     exportIro (importIro (exportIro (iroRun ops))) = exportIro (iroRun ops) := by rw [iro_roundtrip_reachable]
 
+/-- continuing with the same operations on the imported chain gives the same states -/
+theorem iro_continue_commutes (ops more : List IroOp) :
+    more.foldl iroStep (importIro (exportIro (iroRun ops))) = iroRun (ops ++ more) := by
+  rw [iro_roundtrip_reachable]; unfold iroRun; rw [List.foldl_append]
+
 /-- the result does not depend on the order of the plan list -/
 theorem iro_roundtrip_any_order (ops : List IroOp) (l : List Plan) (hp : l.Perm (exportIro (iroRun ops)).plans) :
     importIro { params := (iroRun ops).params, plans := l } = iroRun ops :=
@@ -243,6 +248,15 @@ theorem incentives_roundtrip_reachable_partial (ops : List (Nat × RsOp)) (now p
     (hc : ClsOk (rsRun ops) now) (hf : (rsRun ops).finished = []) :
     importInc now (exportInc ⟨now, params, lockable, last, rsRun ops⟩) = some ⟨now, params, lockable, last, rsRun ops⟩ :=
   incentives_roundtrip_partial ⟨now, params, lockable, last, rsRun ops⟩ (rsInv_run ops) hc hf
+
+/-- … and continuing with the same store operations on the imported chain gives the same states -/
+theorem incentives_continue_commutes_partial (ops more : List (Nat × RsOp)) (now params last : Nat) (lockable : List Nat)
+    (hc : ClsOk (rsRun ops) now) (hf : (rsRun ops).finished = []) :
+    (importInc now (exportInc ⟨now, params, lockable, last, rsRun ops⟩)).map
+      (fun t => more.foldl (fun s o => rsStep o.1 s o.2) t.gauges) = some (rsRun (ops ++ more)) := by
+  rw [incentives_roundtrip_reachable_partial ops now params last lockable hc hf]
+  simp only [Option.map_some]
+  unfold rsRun; rw [List.foldl_append]
 
 /-- a history: gauge 1 created and activated, gauges 3 then 2 created for later -/
 def incHistory : List (Nat × RsOp) :=
